@@ -128,6 +128,8 @@ def build(scn, trace, fault=None, script=None):
             if act[0] == "raise":
                 if len(act) > 2 and act[2] == "noargs":
                     raise act[1]()  # exceptions without a message (bare assert, `raise MyError`) are exceptions too
+                if len(act) > 2 and act[2] == "twoargs":
+                    raise act[1](k, "injected fault")  # structured exceptions: cannot be re-built from a single string
                 raise act[1](f"injected fault at call {k}")
             rec["ret"] = act[1]
             return act[1]
